@@ -36,6 +36,16 @@ def main():
                 kind = json.loads(chk['kinds'][0]).get('kind', '')
             except Exception:  # noqa: BLE001
                 kind = chk['kinds'][0][:40]
+        if chk.get('verdict') != 'CAUGHT':
+            # caught by the check of ANOTHER property (the change was filed under this one by its author)
+            for other, oc in sorted((v.get('checks') or {}).items()):
+                if oc.get('verdict') == 'CAUGHT' and oc.get('kinds'):
+                    try:
+                        kind = 'by %s: %s' % (other, json.loads(oc['kinds'][0]).get('kind', ''))
+                    except Exception:  # noqa: BLE001
+                        kind = 'by %s' % other
+                    chk = oc
+                    break
         if not v.get('valid_seed') or chk.get('verdict') != 'CAUGHT':
             bad.append((name, 'valid=%s verdict=%s' % (v.get('valid_seed'), chk.get('verdict'))))
         rows.append('| %s | %s | %s | `%s` |' % (name, cell(m.get('title'), 140), cell(m.get('needs_to_manifest'), 170), kind))
